@@ -1229,6 +1229,9 @@ class Reaction(Object):
         new_metabolites = []
         _id_to_metabolites = dict([(x.id, x) for x in self._metabolites])
 
+        # Resolve every key first, so that the reaction is not changed at all
+        # when one of them turns out to be invalid.
+        resolved = []
         for metabolite, coefficient in metabolites_to_add.items():
             # Make sure metabolites being added belong to the same model, or
             # else copy them.
@@ -1239,15 +1242,7 @@ class Reaction(Object):
                     metabolite = metabolite.copy()
 
             met_id = str(metabolite)
-            # If a metabolite already exists in the reaction then
-            # just add them.
-            if met_id in _id_to_metabolites:
-                reaction_metabolite = _id_to_metabolites[met_id]
-                if combine:
-                    self._metabolites[reaction_metabolite] += coefficient
-                else:
-                    self._metabolites[reaction_metabolite] = coefficient
-            else:
+            if met_id not in _id_to_metabolites:
                 # If the reaction is in a model, ensure we aren't using
                 # a duplicate metabolite.
                 if self._model:
@@ -1266,16 +1261,29 @@ class Reaction(Object):
                         f"Either add the reaction to a model or use Metabolite objects "
                         f"instead of strings as keys."
                     )
-                self._metabolites[metabolite] = coefficient
-                # make the metabolite aware that it is involved in this
-                # reaction
-                metabolite._reaction.add(self)
+            resolved.append((met_id, metabolite, coefficient))
 
         # from cameo ...
         model = self.model
         if model is not None:
             model.add_metabolites(new_metabolites)
 
+        for met_id, metabolite, coefficient in resolved:
+            # If a metabolite already exists in the reaction then
+            # just add them.
+            if met_id in _id_to_metabolites:
+                reaction_metabolite = _id_to_metabolites[met_id]
+                if combine:
+                    self._metabolites[reaction_metabolite] += coefficient
+                else:
+                    self._metabolites[reaction_metabolite] = coefficient
+            else:
+                self._metabolites[metabolite] = coefficient
+                # make the metabolite aware that it is involved in this
+                # reaction
+                metabolite._reaction.add(self)
+
+        if model is not None:
             for metabolite, coefficient in self._metabolites.items():
                 model.constraints[metabolite.id].set_linear_coefficients(
                     {
